@@ -104,7 +104,18 @@ func buildJail(base string) (string, string) {
 	if sc, err := transfer.CreateSidecar(filepath.Join(vdir, "eeee0000eeee0000.sbxmap"), "other", 999, 7); err == nil {
 		_ = sc.Flush()
 	}
-	// the same inside out (to see that the tool's own data there may be touched freely)
+	// siblings whose NAME starts with the output directory's name (a containment
+	// test on path strings instead of path components takes them for inside),
+	// each with resume data and an ordinary file
+	for _, sib := range []string{"out-archive", "out2", "outer/inner", "out.bak"} {
+		sdir := filepath.Join(jail, "a", filepath.FromSlash(sib), vk.ResumeDirName)
+		_ = os.MkdirAll(sdir, 0755)
+		if sc, err := transfer.CreateSidecar(filepath.Join(sdir, "00112233aabbccdd.sbxmap"), "00112233aabbccdd", 24, 16); err == nil {
+			sc.MarkComplete(0)
+			_ = sc.Flush()
+		}
+		_ = os.WriteFile(filepath.Join(jail, "a", filepath.FromSlash(sib), "keep.txt"), []byte("canary-"+sib), 0644)
+	}
 	return jail, out
 }
 
@@ -269,8 +280,10 @@ func attackStrings(jail string, r *vk.Rng, extra int) [][2]string {
 		{"sibling-sidecar", "../victim/" + vk.ResumeDirName + "/x"}, {"sibling-victim-dir", "../victim"}, {"sibling-victim-dir-deep", "a/../../victim"}, {"sibling-dir", "../dircanary/f"}, {"sibling-file", "../sibling.txt"},
 		{"percent", "%2e%2e/evil"}, {"tilde", "~/evil"}, {"unicode-dots", "．．/evil"}, {"leading-slash-rel", "/evil"},
 		{"resume-dir-name", vk.ResumeDirName}, {"dotdot-resume", "../" + vk.ResumeDirName},
+		{"sibling-name-prefix-1", "../out-archive"}, {"sibling-name-prefix-2", "../out2"}, {"sibling-name-prefix-3", "../outer/inner"}, {"sibling-name-prefix-4", "../out.bak"},
+		{"sibling-name-prefix-file", "../out-archive/keep.txt"}, {"sibling-name-prefix-slash", "../out2/"}, {"sibling-name-prefix-mid", "x/../../out-archive"},
 	}
-	segs := []string{"..", ".", "a", "", "evil", "\\", "..\\", "../", "/", "x..y", "victim", vk.ResumeDirName}
+	segs := []string{"..", ".", "a", "", "evil", "\\", "..\\", "../", "/", "x..y", "victim", "out2", "out-archive", vk.ResumeDirName}
 	for i := 0; i < extra; i++ {
 		n := 1 + r.Intn(5)
 		var parts []string
